@@ -126,7 +126,10 @@ func DecodePointer(reader io.Reader) (*Pointer, error) {
 // blob's data will be returned, along with a parse error.
 func DecodeFrom(reader io.Reader) (*Pointer, io.Reader, error) {
 	buf := make([]byte, blobSizeCutoff)
-	n, err := reader.Read(buf)
+	n, err := io.ReadFull(reader, buf)
+	if err == io.ErrUnexpectedEOF {
+		err = io.EOF
+	}
 	buf = buf[:n]
 
 	var contents io.Reader = bytes.NewReader(buf)
